@@ -1,4 +1,5 @@
 import Qats.Model.Rainflow
+import Qats.Lemmas.PreludeSort
 import Mathlib.Data.List.Sort
 import Mathlib.Algebra.Order.Field.Basic
 import Mathlib.Algebra.Order.AbsoluteValue.Basic
@@ -6,25 +7,6 @@ import Mathlib.Tactic.Ring
 import Mathlib.Tactic.Linarith
 import Mathlib.Tactic.NormNum
 import Mathlib.Tactic.FieldSimp
-
-namespace Qats
-
-theorem insertSorted_eq {α : Type} (le : α → α → Bool) (a : α) (l : List α) :
-    insertSorted le a l = List.orderedInsert (fun x y => le x y = true) a l := by
-  induction l with
-  | nil => rfl
-  | cons b l ih => simp only [insertSorted, List.orderedInsert, ih]
-
-theorem isort_eq {α : Type} (le : α → α → Bool) (l : List α) :
-    isort le l = List.insertionSort (fun x y => le x y = true) l := by
-  induction l with
-  | nil => rfl
-  | cons a l ih => rw [isort, ih, insertSorted_eq, List.insertionSort_cons]
-
-theorem isort_perm {α : Type} (le : α → α → Bool) (l : List α) : (isort le l).Perm l := by
-  rw [isort_eq]; exact List.perm_insertionSort _ _
-
-end Qats
 
 namespace Qats.Rainflow
 set_option linter.unusedSectionVars false
